@@ -8,9 +8,11 @@ import (
 
 var (
 	errPathNotFound = errors.New("path does not exist")
-	setJSONOptions  = &sjson.Options{
-		Optimistic:     true,
-		ReplaceInPlace: true,
+	// ReplaceInPlace must stay off: matchers receive the caller's own bytes
+	// (validateJSON does not copy them) and sjson would overwrite them in place;
+	// it also silently skips replacements that need JSON escaping.
+	setJSONOptions = &sjson.Options{
+		Optimistic: true,
 	}
 )
 
